@@ -41,16 +41,58 @@ COMPONENTS = {
              "generated InitInit / ConnectionPlayer / AccountReply server packets (real generator, documented layout) for a sample of outcomes"],
     "stub_or_harness": ["SimRandom (scripted random source)", "outcome-space enumerator"],
 }
-PROBES = ["refused_write_elsewhere_before_trip", "switch_field_given_as_plain_int", "components_through_generated_packet", "init_seq2_at_252", "init_seq2_at_0", "init_single_choice_range", "ping_seq2_at_251", "ping_value_max",
+PROBES = ["two_generating_threads_interleaved", "refused_write_elsewhere_before_trip", "switch_field_given_as_plain_int", "components_through_generated_packet", "init_seq2_at_252", "init_seq2_at_0", "init_single_choice_range", "ping_seq2_at_251", "ping_value_max",
           "account_value_239", "init_value_0", "init_value_max"]
-FAULT_KINDS = ["scripted_draw"]
+FAULT_KINDS = ["scripted_draw", "preemption_between_lines"]
 EXHAUSTIVE = False  # set in coverage_extra when the sweep completed
 
 
 def generate(streams, tier):
     i = None  # filled by plan index in execute through seed_index; plans are index-driven
     rng = streams.get("plan")
-    return {"session_seed": rng.randrange(1 << 30), "session_len": rng.randrange(1, 30)}
+    plan = {"session_seed": rng.randrange(1 << 30), "session_len": rng.randrange(1, 30)}
+    if rng.random() < 0.3:
+        # two caller threads generate starts at the same time (a server accepting two connections): sim/interleave.py
+        plan["interleave"] = [rng.randrange(1, 7) for _ in range(rng.randrange(4, 40))]
+    return plan
+
+
+def concurrent_generates(ctx, plan):
+    """Two caller threads, each with its own scripted draws, generate a start of the same kind at the same time under a
+    scheduled interleaving; each must get the start it gets alone with those draws."""
+    import random
+    from ..interleave import Interleaver, InterleaveStall
+    from ..seams import PerCallerRandom
+    rng = random.Random(plan["session_seed"] ^ 0xC12)
+    gen = rng.choice(["init", "init", "ping", "account"])
+    cls = {"init": ctx.mod.InitSequenceStart, "ping": ctx.mod.PingSequenceStart, "account": ctx.mod.AccountReplySequenceStart}[gen]
+    scripts = [[rng.choice([0, 0.25, 0.5, 0.999999, rng.random()]) for _ in range(2)] for _ in range(2)]
+
+    def describe(start):
+        return (start.value, getattr(start, "seq1", None), getattr(start, "seq2", None))
+
+    alone = []
+    for sc in scripts:
+        with owned_random(ctx.mod, SimRandom(sc)):
+            alone.append(describe(cls.generate()))
+    sim = PerCallerRandom({"sim-caller-0": scripts[0], "sim-caller-1": scripts[1]})
+    il = Interleaver(plan["interleave"], lambda filename: "eolib-verif-" in filename)
+    with owned_random(ctx.mod, sim):
+        try:
+            results, errors = il.run(lambda: describe(cls.generate()), lambda: describe(cls.generate()))
+        except InterleaveStall as e:
+            ctx.fail("concurrent-generate", gen, f"two caller threads generating {gen} starts did not both finish: {e}")
+            return
+    ctx.res.count("probe.two_generating_threads_interleaved")
+    ctx.res.count("fault.preemption_between_lines", il.switches)
+    ctx.tr.ev("interleave", gen, il.switches, tuple(il.lines))
+    for i in (0, 1):
+        if errors[i] is not None or results[i] != alone[i]:
+            got = f"raised {type(errors[i]).__name__}: {errors[i]}" if errors[i] is not None else results[i]
+            ctx.fail("concurrent-generate", gen, f"caller thread {i} generating a {gen} start with draws {scripts[i]} while another thread "
+                                                 f"generated one got (value, seq1, seq2) = {got}; alone the same draws give {alone[i]} "
+                                                 f"(schedule {plan['interleave'][:12]}..., {il.switches} switches)")
+            return
 
 
 def _slice_for(index):
@@ -335,6 +377,8 @@ def execute(plan, env):
             script = [rng.choice([0, 1, 0.5, 0.999999, rng.random()]) for _ in range(2)]
             if ctx.one(gen, script) is None:
                 break
+        if plan.get("interleave") and res.violation is None:
+            concurrent_generates(ctx, plan)
     if res.violation and "outcome" not in plan:
         # remember the exact scripted outcome for the minimiser
         last = tr.events[-1] if tr.keep and tr.events else None
